@@ -152,6 +152,9 @@ def run(ctx: Ctx) -> None:
     for lab in ("metadata", "validation", "values", "connectionoptions"):
         for r in res(lab):
             d = r.value
+            if not isinstance(d, dict):
+                ctx.finding("T3", f"{lab} | {' '.join(r.children_classes)[:60]}", locf(lab), f"the {lab} callback returns {d!r} instead of the block's dictionary")
+                continue
             bad = []
             for k, v in d.items():
                 if isinstance(k, str) and k.startswith("__"):
